@@ -185,6 +185,32 @@ class SeqEval:
     def loop(self, l):
         it = l.iter
         idx = None
+        if isinstance(it, ast.Call) and U(it.func) == 'zip' and len(
+                it.args) == 2 and not it.keywords and isinstance(
+                l.target, ast.Tuple) and len(l.target.elts) == 2 and all(
+                    isinstance(t, ast.Name) for t in l.target.elts):
+            # `for a, b in zip(X, Y)` is `for i, b in enumerate(Y)` with
+            # a = X[i] (both sequences are walked in step)
+            import copy
+            a_name = l.target.elts[0].id
+            X = it.args[0]
+
+            class R(ast.NodeTransformer):
+                def visit_Name(self, n):
+                    if n.id == a_name and isinstance(n.ctx, ast.Load):
+                        return ast.Subscript(
+                            value=copy.deepcopy(X),
+                            slice=ast.Name(id='__zi', ctx=ast.Load()),
+                            ctx=ast.Load())
+                    return n
+            l2 = copy.deepcopy(l)
+            l2.body = [R().visit(b) for b in l2.body]
+            l2.iter = ast.Call(func=ast.Name(id='enumerate', ctx=ast.Load()),
+                               args=[it.args[1]], keywords=[])
+            l2.target = ast.Tuple(elts=[ast.Name(id='__zi', ctx=ast.Store()),
+                                        l.target.elts[1]], ctx=ast.Store())
+            ast.fix_missing_locations(l2)
+            return self.loop(l2)
         if isinstance(it, ast.Call) and U(it.func) == 'enumerate' and it.args \
                 and isinstance(l.target, ast.Tuple) and len(
                     l.target.elts) == 2:
